@@ -169,7 +169,7 @@ theorem createTempName_absOf {D : List Name} (hn : NL D) (rnd : Text) :
 
 * `cacheFile, err := cachePathFromURL(t.root, *request.URL)` — an error ends the round trip;
 * `finalEtag, ok := etagFromResponse(r)`; `!ok` ends it ("GET response did not contain an etag");
-* `cacheFileFromEtag(cacheFile, finalEtag)` — an error ends it ("unsafe etag value");
+* `cacheFileFromEtag(cacheFile, finalEtag)` — an error (the etag value is rejected) ends it;
 * `cacheDir := filepath.Dir(etagFile)`; `os.MkdirAll(cacheDir, 0755)`;
 * `os.CreateTemp(cacheDir, "*.tmp")`, then `tmp.Chmod`, `io.Copy(tmp, …)`, and in `AdvertiseCachedFile` `os.Remove(src)`;
 * `os.Symlink(rel, etagFile)` — the advertised name (the link's *content* `rel` is not a path that is written).
